@@ -14,7 +14,8 @@ struct ModelState {
     MSlot slots[N_SLOTS]; int seq;
     Vec<int> pluginCalls;
     Vec<int> chain; bool chainInit;      // scripted plugins currently installed, head (installed last) first
-    ModelState() : seq(0), chainInit(false) { for (int i = 0; i < N_SLOTS; i++) slots[i].live = false; }
+    const Vec<int64_t>* reallocFaultUnused;
+    ModelState() : seq(0), chainInit(false), reallocFaultUnused(0) { for (int i = 0; i < N_SLOTS; i++) slots[i].live = false; }
 };
 struct ExpTest { Vec<ExpOp> ops; Vec<ExpFail> fails; size_t checks; bool leakFailure; Vec<ExpLeak> leaks; bool chainChanged;
                  int childEnd /* 0 normal, 1 killed by signal, 2 _exit */, childValue, childStops; };
@@ -104,7 +105,8 @@ static void modelTest(const Desc& d, const Vec<int>& testGroups, const Vec<int>&
             case K_FREE: ms.slots[o.a % N_SLOTS].live = false; break;
             case K_REALLOC: {
                 MSlot& s = ms.slots[o.a % N_SLOTS];
-                if (s.live && s.family == 2 && o.b != 1) { s.size = (size_t)o.c; s.file = file; s.line = (size_t)o.d; s.ownerSeq = mySeq; }   // the block is re-registered by this test
+                bool failed = o.b == 1 && !(ms.reallocFaultUnused && std::find(ms.reallocFaultUnused->begin(), ms.reallocFaultUnused->end(), o.d) != ms.reallocFaultUnused->end());      // (a fault that the simulated platform never got to deliver is no fault)
+                if (s.live && s.family == 2 && !failed) { s.size = (size_t)o.c; s.file = file; s.line = (size_t)o.d; s.ownerSeq = mySeq; }   // the block is re-registered by this test
                 break;
             }
             case K_EXPECT_LEAKS: expectLeaks = (size_t)o.a; break;
@@ -309,7 +311,7 @@ void checkOracles(const Desc& d, const Obs& o, RunResult& r) {
     if ((int)repsSeen.size() != reps) r.fail("C01", "repetitions", sfmt("expected %d repetitions, observed %zu", reps, repsSeen.size()));
     if (o.sums.size() != repsSeen.size()) r.fail("C01", "repetitions", "summary records do not match repetitions");
 
-    ModelState ms; ms.pluginCalls.assign(pluginGroups.size(), 0);
+    ModelState ms; ms.pluginCalls.assign(pluginGroups.size(), 0); ms.reallocFaultUnused = &o.reallocFaultUnused;
     size_t totalExpectedFailures = 0; bool anyRepFailed = false;
     Map<Str, size_t> tokenExpected;        // token -> how often a failure with it must have been printed
     Map<Str, size_t> childTokens;          // the same for failures recorded inside forked children
